@@ -64,7 +64,9 @@ COLLIDING = [
 ]
 PATTERNS = ["[a-z]+", "(ab|cd)*e", "[^0-9]", "\\d{2,3}", "[[:alpha:]_]\\w*", "(", "a{3,1}", "a{4,2})", "[z-a", "(b{2,1}", "[a-c]+x", "\\p{Nope}x)",
             # every shared class table in both polarities (a later pattern must not see what an earlier one did to a table)
-            "\\s+", "a\\S*", "\\D\\d", "\\W+\\w", "[^\\s]x", "[\\s\\d]", "\\p{Greek}+", "\\P{Greek}", "[[:space:]]+", "[^[:digit:]]", "[[:^alpha:]]", "."]
+            "\\s+", "a\\S*", "\\D\\d", "\\W+\\w", "[^\\s]x", "[\\s\\d]", "\\p{Greek}+", "\\P{Greek}", "[[:space:]]+", "[^[:digit:]]", "[[:^alpha:]]", ".",
+            # a pattern that fails deep inside (1200 open groups) and valid patterns with groups: whatever a failing parse had taken must be given back
+            "(" * 1200, "(ab)+c", "((a|b)c)*", "-?[0-9]+(\\.[0-9]+)?"]
 
 CASES_V = """(* GENERATED: hashStrings of the implementation vs the FNV-1 model of Emerge/Shared.v *)
 From Coq Require Import List Bool NArith.
